@@ -1,6 +1,745 @@
-//! C23 — not implemented yet.
-use mc_core::Ctx;
+//! C23 — schema compatibility checks are sound.
+//!
+//! Statement: when the schema comparison reports that a new schema is a valid extension of an old one, every
+//! payload valid under the old schema is valid under the new one; when it reports equality, the two schemas accept
+//! exactly the same payloads.
+//!
+//! Bounded-exhaustive enumeration (basic SBOR, `NoCustomSchema`):
+//!  * base types: every type tree of depth <= 2 over leaves {Any, Bool, U8, U8 with 3 range shapes, String, String
+//!    with 2 length bounds} and composite forms {Tuple of 0/1/2 fields, Enum with 1-2 variants x <=1 field (incl.
+//!    a non-zero discriminator), Array (no bound / 2 length bounds), Map (no bound / 1 bound)}, children of the
+//!    second level taken from a reduced set, plus two self-recursive types; each compiled to a real `SchemaV1`
+//!    (only schemas that pass `validate_schema` are used);
+//!  * edits, applied at every position of the type tree: identity; add / remove / renumber an enum variant; reorder
+//!    variants; add / remove / swap tuple or variant fields; change a leaf's kind; widen / narrow / drop / add a
+//!    numeric range; widen / narrow / drop / add a length bound; replace the subtree with Any; rename type / field /
+//!    variant; drop field names; and at schema level: add an unreachable type, duplicate a type (structural alias);
+//!  * settings presets: `require_equality` and `allow_extension`, each with and without `allow_all_name_changes`,
+//!    plus `allow_extension` with completeness checks relaxed.
+//! For each (base, edited, preset) the real `compare_single_type_schemas` is run. Payload set P =
+//! schema_directed(base) ∪ schema_directed(edited) (complete for these tiny schemas within the bound; includes the
+//! just-out-of-range values and one undeclared enum variant), validity decided by the real
+//! `validate_payload_against_schema`.
+//! Oracle: reported valid under an extension preset => every p in P valid under base is valid under edited;
+//! reported valid under an equality preset => base and edited accept exactly the same members of P.
+//! The converse (payload-compatible edits reported invalid) is allowed and only counted.
+use crate::minrec::MinRec;
+use crate::schemagen::*;
+use mc_core::{par_range, Ctx, Level, Local};
+use sbor::basic_well_known_types::*;
+use sbor::rust::prelude::*;
+use sbor::*;
+use serde_json::{json, Map};
+use std::borrow::Cow;
 
-pub fn run(_ctx: Ctx) -> ! {
-    mc_core::machinery_error("C23: not implemented")
+static MIN: MinRec = MinRec::new();
+
+type Range8 = (Option<u8>, Option<u8>);
+type Len = (Option<u32>, Option<u32>);
+
+#[derive(Clone, Debug, PartialEq, Eq, Hash, PartialOrd, Ord)]
+pub enum Ty {
+    Any,
+    Bool,
+    U8(Option<Range8>),
+    Str(Option<Len>),
+    /// fields, field names present?
+    Tuple(Vec<Ty>, bool),
+    /// (discriminator, fields)
+    Enum(Vec<(u8, Vec<Ty>)>),
+    Array(Box<Ty>, Option<Len>),
+    Map(Box<Ty>, Box<Ty>, Option<Len>),
+    /// reference back to the root type
+    Rec,
+}
+
+/// Names attached when compiling: `salt` changes every name (a "rename everything at this node" edit is expressed
+/// by wrapping: see `Renamed`).
+#[derive(Clone, Debug, PartialEq, Eq, Hash, PartialOrd, Ord)]
+pub struct Spec {
+    pub ty: Ty,
+    /// path (child indexes) of a node whose type/field/variant names are changed; kind: 0 type, 1 fields, 2 variants
+    pub rename: Option<(Vec<usize>, u8)>,
+    /// schema-level extras
+    pub unreachable_type: bool,
+    /// structurally identical subtrees share one local type (otherwise every node gets its own local type):
+    /// comparing a sharing schema with a non-sharing one is the "structural alias" edit, in both directions
+    pub share: bool,
+}
+
+impl Spec {
+    fn plain(ty: Ty) -> Spec {
+        Spec { ty, rename: None, unreachable_type: false, share: false }
+    }
+}
+
+struct Compiler {
+    shared: std::collections::BTreeMap<Ty, LocalTypeId>,
+    kinds: Vec<LocalTypeKind<NoCustomSchema>>,
+    metadata: Vec<TypeMetadata>,
+    validations: Vec<TypeValidation<NoCustomTypeValidation>>,
+}
+
+fn cow(s: String) -> Cow<'static, str> {
+    Cow::Owned(s)
+}
+
+impl Compiler {
+    fn alloc(&mut self) -> usize {
+        self.kinds.push(TypeKind::Any);
+        self.metadata.push(TypeMetadata::unnamed());
+        self.validations.push(TypeValidation::None);
+        self.kinds.len() - 1
+    }
+    /// Compile `ty` located at `path`; returns its type id.
+    fn compile(&mut self, ty: &Ty, path: &mut Vec<usize>, spec: &Spec, root_slot: Option<usize>) -> LocalTypeId {
+        let flags: [bool; 3] = [0u8, 1, 2].map(|k| spec.rename.as_ref().map(|(p, kk)| p == path && *kk == k).unwrap_or(false));
+        let renamed = move |k: u8| flags[k as usize];
+        let tname = |base: &str| -> Option<Cow<'static, str>> { Some(cow(if renamed(0) { format!("{base}Renamed") } else { base.to_string() })) };
+        match ty {
+            Ty::Any => LocalTypeId::WellKnown(ANY_TYPE),
+            Ty::Bool => LocalTypeId::WellKnown(BOOL_TYPE),
+            Ty::U8(None) => LocalTypeId::WellKnown(U8_TYPE),
+            Ty::Str(None) => LocalTypeId::WellKnown(STRING_TYPE),
+            Ty::Rec => LocalTypeId::SchemaLocalIndex(root_slot.expect("Rec needs a local root")),
+            Ty::U8(Some((lo, hi))) => {
+                let i = self.alloc();
+                self.kinds[i] = TypeKind::U8;
+                self.metadata[i] = TypeMetadata { type_name: tname("SmallNumber"), child_names: None };
+                self.validations[i] = TypeValidation::U8(NumericValidation::with_bounds(*lo, *hi));
+                LocalTypeId::SchemaLocalIndex(i)
+            }
+            Ty::Str(Some((lo, hi))) => {
+                let i = self.alloc();
+                self.kinds[i] = TypeKind::String;
+                self.metadata[i] = TypeMetadata { type_name: tname("ShortString"), child_names: None };
+                self.validations[i] = TypeValidation::String(LengthValidation { min: *lo, max: *hi });
+                LocalTypeId::SchemaLocalIndex(i)
+            }
+            Ty::Tuple(fields, named) => {
+                let i = self.alloc();
+                let root_slot = root_slot.or(Some(i));
+                let mut ids = vec![];
+                for (j, f) in fields.iter().enumerate() {
+                    path.push(j);
+                    ids.push(self.compile_child(f, path, spec, root_slot));
+                    path.pop();
+                }
+                self.kinds[i] = TypeKind::Tuple { field_types: ids };
+                let fnames = if *named { Some(ChildNames::NamedFields((0..fields.len()).map(|j| cow(if renamed(1) { format!("renamed_field_{j}") } else { format!("field_{j}") })).collect())) } else { None };
+                self.metadata[i] = TypeMetadata { type_name: tname("MyTuple"), child_names: fnames };
+                LocalTypeId::SchemaLocalIndex(i)
+            }
+            Ty::Enum(variants) => {
+                let i = self.alloc();
+                let root_slot = root_slot.or(Some(i));
+                let mut vs: IndexMap<u8, Vec<LocalTypeId>> = IndexMap::default();
+                let mut vm: IndexMap<u8, TypeMetadata> = IndexMap::default();
+                let mut child = 0usize;
+                for (d, fields) in variants {
+                    let mut ids = vec![];
+                    for f in fields {
+                        path.push(child);
+                        ids.push(self.compile_child(f, path, spec, root_slot));
+                        path.pop();
+                        child += 1;
+                    }
+                    vm.insert(
+                        *d,
+                        TypeMetadata {
+                            type_name: Some(cow(if renamed(2) { format!("RenamedVariant{d}") } else { format!("Variant{d}") })),
+                            child_names: if fields.is_empty() { None } else { Some(ChildNames::NamedFields((0..fields.len()).map(|j| cow(if renamed(1) { format!("renamed_{j}") } else { format!("f{j}") })).collect())) },
+                        },
+                    );
+                    vs.insert(*d, ids);
+                }
+                self.kinds[i] = TypeKind::Enum { variants: vs };
+                self.metadata[i] = TypeMetadata { type_name: tname("MyEnum"), child_names: Some(ChildNames::EnumVariants(vm)) };
+                LocalTypeId::SchemaLocalIndex(i)
+            }
+            Ty::Array(elem, len) => {
+                let i = self.alloc();
+                let root_slot = root_slot.or(Some(i));
+                path.push(0);
+                let e = self.compile_child(elem, path, spec, root_slot);
+                path.pop();
+                self.kinds[i] = TypeKind::Array { element_type: e };
+                self.metadata[i] = TypeMetadata { type_name: tname("MyArray"), child_names: None };
+                self.validations[i] = match len {
+                    None => TypeValidation::None,
+                    Some((lo, hi)) => TypeValidation::Array(LengthValidation { min: *lo, max: *hi }),
+                };
+                LocalTypeId::SchemaLocalIndex(i)
+            }
+            Ty::Map(k, v, len) => {
+                let i = self.alloc();
+                let root_slot = root_slot.or(Some(i));
+                path.push(0);
+                let kk = self.compile_child(k, path, spec, root_slot);
+                path.pop();
+                path.push(1);
+                let vv = self.compile_child(v, path, spec, root_slot);
+                path.pop();
+                self.kinds[i] = TypeKind::Map { key_type: kk, value_type: vv };
+                self.metadata[i] = TypeMetadata { type_name: tname("MyMap"), child_names: None };
+                self.validations[i] = match len {
+                    None => TypeValidation::None,
+                    Some((lo, hi)) => TypeValidation::Map(LengthValidation { min: *lo, max: *hi }),
+                };
+                LocalTypeId::SchemaLocalIndex(i)
+            }
+        }
+    }
+    fn compile_child(&mut self, ty: &Ty, path: &mut Vec<usize>, spec: &Spec, root_slot: Option<usize>) -> LocalTypeId {
+        fn has_rec(t: &Ty) -> bool {
+            *t == Ty::Rec || children(t).into_iter().any(has_rec)
+        }
+        if spec.share && !has_rec(ty) {
+            if let Some(id) = self.shared.get(ty) {
+                return *id;
+            }
+            let id = self.compile(ty, path, spec, root_slot);
+            self.shared.insert(ty.clone(), id);
+            return id;
+        }
+        self.compile(ty, path, spec, root_slot)
+    }
+}
+
+pub fn compile(spec: &Spec) -> Option<SingleTypeSchema<NoCustomSchema>> {
+    let mut c = Compiler { shared: Default::default(), kinds: vec![], metadata: vec![], validations: vec![] };
+    let mut path = vec![];
+    let root = c.compile(&spec.ty, &mut path, spec, None);
+    if spec.unreachable_type {
+        let i = c.alloc();
+        c.kinds[i] = TypeKind::Tuple { field_types: vec![] };
+        c.metadata[i] = TypeMetadata { type_name: Some(cow("Unreachable".into())), child_names: None };
+    }
+    let schema = SchemaV1::<NoCustomSchema> { type_kinds: c.kinds, type_metadata: c.metadata, type_validations: c.validations };
+    if schema.validate().is_err() {
+        return None;
+    }
+    Some(SingleTypeSchema::new(VersionedSchema::from_latest_version(schema), root))
+}
+
+// ---------------------------------------------------------------------------------------------------------------
+// base types
+// ---------------------------------------------------------------------------------------------------------------
+
+fn leaves() -> Vec<Ty> {
+    vec![
+        Ty::Any,
+        Ty::Bool,
+        Ty::U8(None),
+        Ty::U8(Some((Some(1), Some(3)))),
+        Ty::U8(Some((None, Some(2)))),
+        Ty::U8(Some((Some(2), None))),
+        Ty::Str(None),
+        Ty::Str(Some((Some(1), Some(2)))),
+        Ty::Str(Some((None, Some(1)))),
+    ]
+}
+
+fn composites_over(children: &[Ty], pair_children: &[Ty]) -> Vec<Ty> {
+    let mut v = vec![Ty::Tuple(vec![], true), Ty::Enum(vec![(0, vec![])])];
+    for x in children {
+        v.push(Ty::Tuple(vec![x.clone()], true));
+        v.push(Ty::Enum(vec![(0, vec![x.clone()])]));
+        v.push(Ty::Enum(vec![(0, vec![]), (1, vec![x.clone()])]));
+        v.push(Ty::Enum(vec![(7, vec![x.clone()])]));
+        v.push(Ty::Array(Box::new(x.clone()), None));
+        v.push(Ty::Array(Box::new(x.clone()), Some((Some(1), Some(2)))));
+        v.push(Ty::Array(Box::new(x.clone()), Some((None, Some(1)))));
+    }
+    for x in pair_children {
+        for y in pair_children {
+            v.push(Ty::Tuple(vec![x.clone(), y.clone()], true));
+            v.push(Ty::Enum(vec![(0, vec![x.clone()]), (1, vec![y.clone()])]));
+            v.push(Ty::Map(Box::new(x.clone()), Box::new(y.clone()), None));
+            v.push(Ty::Map(Box::new(x.clone()), Box::new(y.clone()), Some((None, Some(1)))));
+        }
+    }
+    v
+}
+
+pub fn base_types(thorough: bool) -> Vec<Ty> {
+    let l = leaves();
+    let mut v: Vec<Ty> = l.clone();
+    let d1 = composites_over(&l, &l);
+    v.extend(d1.clone());
+    // second level: children from a reduced composite set
+    let k: Vec<Ty> = vec![
+        Ty::Tuple(vec![], true),
+        Ty::Tuple(vec![Ty::U8(Some((Some(1), Some(3))))], true),
+        Ty::Enum(vec![(0, vec![]), (1, vec![Ty::U8(None)])]),
+        Ty::Array(Box::new(Ty::U8(None)), Some((None, Some(1)))),
+        Ty::Array(Box::new(Ty::Bool), None),
+        Ty::Map(Box::new(Ty::U8(None)), Box::new(Ty::Bool), None),
+    ];
+    let k_pairs: Vec<Ty> = k.iter().cloned().chain([Ty::Bool, Ty::U8(Some((Some(1), Some(3))))]).collect();
+    v.extend(composites_over(&k, &k_pairs));
+    if thorough {
+        // every depth-1 composite as the single child of each one-child form, and a third level over the reduced set
+        for x in &d1 {
+            v.push(Ty::Tuple(vec![x.clone()], true));
+            v.push(Ty::Enum(vec![(0, vec![]), (1, vec![x.clone()])]));
+            v.push(Ty::Array(Box::new(x.clone()), Some((None, Some(1)))));
+            v.push(Ty::Map(Box::new(Ty::U8(None)), Box::new(x.clone()), None));
+        }
+        let k2: Vec<Ty> = vec![
+            Ty::Tuple(vec![k[2].clone()], true),
+            Ty::Enum(vec![(0, vec![k[1].clone()]), (1, vec![k[3].clone()])]),
+            Ty::Array(Box::new(k[2].clone()), Some((Some(1), Some(2)))),
+            Ty::Map(Box::new(Ty::U8(Some((Some(1), Some(3))))), Box::new(k[2].clone()), None),
+        ];
+        v.extend(composites_over(&k2, &k2));
+    }
+    // recursive types
+    v.push(Ty::Enum(vec![(0, vec![]), (1, vec![Ty::Rec])]));
+    v.push(Ty::Tuple(vec![Ty::Array(Box::new(Ty::Rec), Some((None, Some(2))))], true));
+    v.push(Ty::Enum(vec![(0, vec![Ty::U8(Some((Some(1), Some(3))))]), (1, vec![Ty::Rec])]));
+    v.sort();
+    v.dedup();
+    v
+}
+
+// ---------------------------------------------------------------------------------------------------------------
+// edits
+// ---------------------------------------------------------------------------------------------------------------
+
+fn children_mut(t: &mut Ty) -> Vec<&mut Ty> {
+    match t {
+        Ty::Tuple(f, _) => f.iter_mut().collect(),
+        Ty::Enum(vs) => vs.iter_mut().flat_map(|(_, f)| f.iter_mut()).collect(),
+        Ty::Array(e, _) => vec![e.as_mut()],
+        Ty::Map(k, v, _) => vec![k.as_mut(), v.as_mut()],
+        _ => vec![],
+    }
+}
+fn children(t: &Ty) -> Vec<&Ty> {
+    match t {
+        Ty::Tuple(f, _) => f.iter().collect(),
+        Ty::Enum(vs) => vs.iter().flat_map(|(_, f)| f.iter()).collect(),
+        Ty::Array(e, _) => vec![e.as_ref()],
+        Ty::Map(k, v, _) => vec![k.as_ref(), v.as_ref()],
+        _ => vec![],
+    }
+}
+fn all_paths(t: &Ty, path: &mut Vec<usize>, out: &mut Vec<Vec<usize>>) {
+    out.push(path.clone());
+    for (i, c) in children(t).into_iter().enumerate() {
+        path.push(i);
+        all_paths(c, path, out);
+        path.pop();
+    }
+}
+fn at_mut<'a>(t: &'a mut Ty, path: &[usize]) -> &'a mut Ty {
+    if path.is_empty() {
+        return t;
+    }
+    let mut c = children_mut(t);
+    let n = c.remove(path[0]);
+    at_mut(n, &path[1..])
+}
+fn at<'a>(t: &'a Ty, path: &[usize]) -> &'a Ty {
+    if path.is_empty() {
+        return t;
+    }
+    at(children(t)[path[0]], &path[1..])
+}
+
+fn bump(lo: Option<u32>, hi: Option<u32>) -> Vec<Len> {
+    let mut v = vec![];
+    if let Some(h) = hi {
+        v.push((lo, Some(h + 1)));
+        if h > 0 {
+            v.push((lo, Some(h - 1)));
+        }
+        v.push((lo, None));
+    } else {
+        v.push((lo, Some(2)));
+    }
+    if let Some(l) = lo {
+        v.push((Some(l + 1), hi));
+        if l > 0 {
+            v.push((Some(l - 1), hi));
+        }
+        v.push((None, hi));
+    } else {
+        v.push((Some(1), hi));
+    }
+    v
+}
+
+/// All single-node replacements for the node `n` (the edit alphabet at one position).
+fn node_edits(n: &Ty) -> Vec<(String, Ty)> {
+    let mut v: Vec<(String, Ty)> = vec![];
+    if *n != Ty::Any {
+        v.push(("replace-with-any".into(), Ty::Any));
+    }
+    match n {
+        Ty::Any => {
+            v.push(("any->bool".into(), Ty::Bool));
+            v.push(("any->tuple".into(), Ty::Tuple(vec![], true)));
+        }
+        Ty::Bool => {
+            v.push(("kind:bool->u8".into(), Ty::U8(None)));
+            v.push(("kind:bool->string".into(), Ty::Str(None)));
+        }
+        Ty::U8(r) => {
+            v.push(("kind:u8->bool".into(), Ty::Bool));
+            v.push(("kind:u8->string".into(), Ty::Str(None)));
+            match r {
+                None => {
+                    v.push(("range:add".into(), Ty::U8(Some((Some(1), Some(3))))));
+                    v.push(("range:add-trivial".into(), Ty::U8(Some((None, None)))));
+                    v.push(("range:add-full".into(), Ty::U8(Some((Some(0), Some(255))))));
+                }
+                Some((lo, hi)) => {
+                    v.push(("range:drop".into(), Ty::U8(None)));
+                    if let Some(h) = hi {
+                        if *h < 255 {
+                            v.push(("range:max+1".into(), Ty::U8(Some((*lo, Some(h + 1))))));
+                        }
+                        if *h > 0 {
+                            v.push(("range:max-1".into(), Ty::U8(Some((*lo, Some(h - 1))))));
+                        }
+                        v.push(("range:max-none".into(), Ty::U8(Some((*lo, None)))));
+                    } else {
+                        v.push(("range:max-add".into(), Ty::U8(Some((*lo, Some(200))))));
+                        v.push(("range:max-255".into(), Ty::U8(Some((*lo, Some(255))))));
+                    }
+                    if let Some(l) = lo {
+                        v.push(("range:min+1".into(), Ty::U8(Some((Some(l + 1), *hi)))));
+                        if *l > 0 {
+                            v.push(("range:min-1".into(), Ty::U8(Some((Some(l - 1), *hi)))));
+                        }
+                        v.push(("range:min-none".into(), Ty::U8(Some((None, *hi)))));
+                    } else {
+                        v.push(("range:min-add".into(), Ty::U8(Some((Some(1), *hi)))));
+                        v.push(("range:min-0".into(), Ty::U8(Some((Some(0), *hi)))));
+                    }
+                    v.push(("range:shift".into(), Ty::U8(Some((lo.map(|x| x + 1), hi.map(|x| x.saturating_add(1)))))));
+                    v.push(("range:shift-down".into(), Ty::U8(Some((lo.map(|x| x.saturating_sub(1)), hi.map(|x| x.saturating_sub(1)))))));
+                }
+            }
+        }
+        Ty::Str(l) => {
+            v.push(("kind:string->u8".into(), Ty::U8(None)));
+            v.push(("kind:string->bytes".into(), Ty::Array(Box::new(Ty::U8(None)), None)));
+            match l {
+                None => v.push(("len:add".into(), Ty::Str(Some((None, Some(2)))))),
+                Some((lo, hi)) => {
+                    v.push(("len:drop".into(), Ty::Str(None)));
+                    for (i, b) in bump(*lo, *hi).into_iter().enumerate() {
+                        v.push((format!("len:bump#{i}"), Ty::Str(Some(b))));
+                    }
+                }
+            }
+        }
+        Ty::Tuple(f, named) => {
+            let mut g = f.clone();
+            g.push(Ty::Bool);
+            v.push(("tuple:add-field".into(), Ty::Tuple(g, *named)));
+            if !f.is_empty() {
+                let mut g = f.clone();
+                g.pop();
+                v.push(("tuple:remove-field".into(), Ty::Tuple(g, *named)));
+                v.push(("tuple:drop-field-names".into(), Ty::Tuple(f.clone(), !*named)));
+            }
+            if f.len() == 2 && f[0] != f[1] {
+                v.push(("tuple:swap-fields".into(), Ty::Tuple(vec![f[1].clone(), f[0].clone()], *named)));
+            }
+            v.push(("kind:tuple->enum".into(), Ty::Enum(vec![(0, f.clone())])));
+            v.push(("kind:tuple->array".into(), Ty::Array(Box::new(Ty::Any), None)));
+        }
+        Ty::Enum(vs) => {
+            let unused = (0u8..=255).find(|d| vs.iter().all(|(x, _)| x != d)).unwrap();
+            let mut g = vs.clone();
+            g.push((unused, vec![]));
+            v.push(("enum:add-variant".into(), Ty::Enum(g)));
+            let mut g = vs.clone();
+            g.push((unused, vec![Ty::Bool]));
+            v.push(("enum:add-variant-with-field".into(), Ty::Enum(g)));
+            let mut g = vs.clone();
+            g.insert(0, (200, vec![]));
+            v.push(("enum:add-variant-first".into(), Ty::Enum(g)));
+            if vs.len() > 1 {
+                let mut g = vs.clone();
+                g.pop();
+                v.push(("enum:remove-last-variant".into(), Ty::Enum(g)));
+                let mut g = vs.clone();
+                g.remove(0);
+                v.push(("enum:remove-first-variant".into(), Ty::Enum(g)));
+                let mut g = vs.clone();
+                g.reverse();
+                v.push(("enum:reorder-variants".into(), Ty::Enum(g)));
+                let g = vec![(vs[0].0, vs[1].1.clone()), (vs[1].0, vs[0].1.clone())];
+                if g != *vs {
+                    v.push(("enum:swap-variant-payloads".into(), Ty::Enum(g)));
+                }
+            }
+            let mut g = vs.clone();
+            g[0].0 = unused;
+            v.push(("enum:renumber-variant".into(), Ty::Enum(g)));
+            let mut g = vs.clone();
+            g[0].1.push(Ty::Bool);
+            v.push(("enum:add-variant-field".into(), Ty::Enum(g)));
+            if !vs[0].1.is_empty() {
+                let mut g = vs.clone();
+                g[0].1.pop();
+                v.push(("enum:remove-variant-field".into(), Ty::Enum(g)));
+            }
+            v.push(("kind:enum->tuple".into(), Ty::Tuple(vs[0].1.clone(), true)));
+        }
+        Ty::Array(e, l) => {
+            match l {
+                None => v.push(("len:add".into(), Ty::Array(e.clone(), Some((None, Some(2)))))),
+                Some((lo, hi)) => {
+                    v.push(("len:drop".into(), Ty::Array(e.clone(), None)));
+                    for (i, b) in bump(*lo, *hi).into_iter().enumerate() {
+                        v.push((format!("len:bump#{i}"), Ty::Array(e.clone(), Some(b))));
+                    }
+                }
+            }
+            v.push(("kind:array->tuple".into(), Ty::Tuple(vec![(**e).clone()], true)));
+            v.push(("kind:array->map".into(), Ty::Map(e.clone(), e.clone(), None)));
+        }
+        Ty::Map(k, x, l) => {
+            match l {
+                None => v.push(("len:add".into(), Ty::Map(k.clone(), x.clone(), Some((None, Some(2)))))),
+                Some((lo, hi)) => {
+                    v.push(("len:drop".into(), Ty::Map(k.clone(), x.clone(), None)));
+                    for (i, b) in bump(*lo, *hi).into_iter().enumerate() {
+                        v.push((format!("len:bump#{i}"), Ty::Map(k.clone(), x.clone(), Some(b))));
+                    }
+                }
+            }
+            if k != x {
+                v.push(("map:swap-key-value".into(), Ty::Map(x.clone(), k.clone(), *l)));
+            }
+            v.push(("kind:map->array".into(), Ty::Array(x.clone(), None)));
+        }
+        Ty::Rec => {
+            v.push(("rec->bool".into(), Ty::Bool));
+        }
+    }
+    v
+}
+
+pub fn edits_of(base: &Ty) -> Vec<(String, Spec, Spec)> {
+    let plain = Spec::plain(base.clone());
+    let mut out = vec![("identity".to_string(), plain.clone(), plain.clone())];
+    let mut paths = vec![];
+    all_paths(base, &mut vec![], &mut paths);
+    for p in &paths {
+        let node = at(base, p).clone();
+        for (name, repl) in node_edits(&node) {
+            let mut t = base.clone();
+            *at_mut(&mut t, p) = repl;
+            // a root cannot be `Rec`, and Rec needs a composite root
+            out.push((format!("{name}@{p:?}"), plain.clone(), Spec::plain(t)));
+        }
+        for k in 0..3u8 {
+            let applicable = match (&node, k) {
+                (Ty::Any | Ty::Bool | Ty::U8(None) | Ty::Str(None) | Ty::Rec, _) => false,
+                (Ty::Tuple(f, named), 1) => *named && !f.is_empty(),
+                (Ty::Enum(vs), 1) => vs.iter().any(|(_, f)| !f.is_empty()),
+                (Ty::Enum(_), 2) => true,
+                (_, 0) => true,
+                _ => false,
+            };
+            if applicable {
+                let mut s = Spec::plain(base.clone());
+                s.rename = Some((p.clone(), k));
+                out.push((format!("rename:{}@{p:?}", ["type", "fields", "variants"][k as usize]), plain.clone(), s));
+            }
+        }
+    }
+    // structural alias, both directions (only meaningful when two identical non-well-known subtrees exist)
+    {
+        let mut shared = Spec::plain(base.clone());
+        shared.share = true;
+        let differs = match (compile(&shared), compile(&plain)) {
+            (Some(a), Some(b)) => a.schema.v1().type_kinds.len() != b.schema.v1().type_kinds.len(),
+            _ => false,
+        };
+        if differs {
+            out.push(("alias:share-identical-types".into(), plain.clone(), shared.clone()));
+            out.push(("alias:unshare-identical-types".into(), shared, plain.clone()));
+        }
+    }
+    let mut s = Spec::plain(base.clone());
+    s.unreachable_type = true;
+    out.push(("add-unreachable-type".into(), plain.clone(), s.clone()));
+    out.push(("remove-unreachable-type".into(), s, plain.clone()));
+    out
+}
+
+// ---------------------------------------------------------------------------------------------------------------
+
+#[derive(Clone, Copy, PartialEq, Eq, Debug)]
+enum Claim {
+    Equality,
+    Extension,
+}
+
+fn presets() -> Vec<(&'static str, SchemaComparisonSettings, Claim)> {
+    vec![
+        ("require_equality", SchemaComparisonSettings::require_equality(), Claim::Equality),
+        ("require_equality+allow_all_name_changes", SchemaComparisonSettings::require_equality().allow_all_name_changes(), Claim::Equality),
+        ("allow_extension", SchemaComparisonSettings::allow_extension(), Claim::Extension),
+        ("allow_extension+allow_all_name_changes", SchemaComparisonSettings::allow_extension().allow_all_name_changes(), Claim::Extension),
+        (
+            "allow_extension+roots-need-not-cover",
+            SchemaComparisonSettings::allow_extension().set_completeness(SchemaComparisonCompletenessSettings::allow_type_roots_not_to_cover_schema()).allow_all_name_changes(),
+            Claim::Extension,
+        ),
+    ]
+}
+
+fn valid(s: &SingleTypeSchema<NoCustomSchema>, payload: &[u8]) -> bool {
+    validate_payload_against_schema::<NoCustomExtension, ()>(payload, s.schema.v1(), s.type_id, &(), 64).is_ok()
+}
+
+fn payloads_of(s: &SingleTypeSchema<NoCustomSchema>) -> Vec<Vec<u8>> {
+    let b = Bound { depth: 4, len_bound: 3, product_cap: 4096, node_cap: 0, max_len: 8, root_cap: 0 };
+    schema_directed::<Basic>(s.schema.v1(), s.type_id, &b).iter().map(|e| e.payload(Basic::PREFIX)).collect()
+}
+
+fn check_pair(base_spec: &Spec, edit_name: &str, edited: &Spec, l: &mut Local) {
+    let base_ty = &base_spec.ty;
+    let Some(base) = compile(base_spec) else {
+        l.class("skipped:base-schema-invalid");
+        return;
+    };
+    let Some(new) = compile(edited) else {
+        l.class("skipped:edited-schema-invalid");
+        return;
+    };
+    let mut p = payloads_of(&base);
+    p.extend(payloads_of(&new));
+    p.sort();
+    p.dedup();
+    let vb: Vec<bool> = p.iter().map(|x| valid(&base, x)).collect();
+    let vn: Vec<bool> = p.iter().map(|x| valid(&new, x)).collect();
+    let n_base_valid = vb.iter().filter(|x| **x).count();
+    if n_base_valid == 0 {
+        l.info("base-accepts-nothing-in-P");
+    }
+    let broken: Option<usize> = (0..p.len()).find(|i| vb[*i] && !vn[*i]);
+    let differs: Option<usize> = (0..p.len()).find(|i| vb[*i] != vn[*i]);
+    let edit_class = edit_name.split('@').next().unwrap_or(edit_name).to_string();
+    for (pname, settings, claim) in presets() {
+        l.eval();
+        let reported_valid = match mc_core::catch(|| compare_single_type_schemas::<NoCustomSchema>(&settings, &base, &new).is_valid()) {
+            Ok(r) => r,
+            Err(pmsg) => {
+                // The statement only constrains *reported* verdicts, so a panic of the comparison is informational.
+                l.info(&format!("comparison-panic:{edit_class}"));
+                l.class("comparison-panicked(informational)");
+                if format!("{base_ty:?}").len() < 20 {
+                    l.sample(|| json!({"informational": "comparison panicked", "base": format!("{base_ty:?}"), "edit": edit_name, "preset": pname, "panic": pmsg}));
+                }
+                continue;
+            }
+        };
+        let case = |i: usize| {
+            json!({"base": format!("{base_ty:?}"), "edit": edit_name, "edited": format!("{:?}", edited), "preset": pname,
+                   "payload_hex": mc_core::hex(&p[i]), "valid_under_base": vb[i], "valid_under_edited": vn[i],
+                   "base_schema_hex": mc_core::hex(&base.encode_to_bytes()), "edited_schema_hex": mc_core::hex(&new.encode_to_bytes())})
+        };
+        match (reported_valid, claim) {
+            (true, Claim::Extension) => match broken {
+                Some(i) => MIN.record(
+                    l,
+                    format!("unsound-extension:{edit_class}:{pname}"),
+                    format!("comparison ({pname}) reports a valid extension for edit {edit_name} of {base_ty:?}, but payload {} is valid under the old schema and invalid under the new one", mc_core::hex(&p[i])),
+                    format!("{base_ty:?}").len() + p[i].len(),
+                    format!("{base_ty:?}{edit_name}"),
+                    case(i),
+                ),
+                None => l.class(&format!("reported-valid-extension:payloads-agree:{}", if differs.is_some() { "proper-extension" } else { "same-acceptance" })),
+            },
+            (true, Claim::Equality) => match differs {
+                Some(i) => MIN.record(
+                    l,
+                    format!("unsound-equality:{edit_class}:{pname}"),
+                    format!("comparison ({pname}) reports equality for edit {edit_name} of {base_ty:?}, but payload {} is accepted by exactly one of the two schemas", mc_core::hex(&p[i])),
+                    format!("{base_ty:?}").len() + p[i].len(),
+                    format!("{base_ty:?}{edit_name}"),
+                    case(i),
+                ),
+                None => l.class("reported-equal:payloads-agree"),
+            },
+            (false, Claim::Extension) => {
+                if broken.is_none() {
+                    l.class("reported-invalid:but-payload-compatible(converse,allowed)");
+                    l.info(&format!("converse:extension-compatible-but-rejected:{edit_class}"));
+                } else {
+                    l.class("reported-invalid:payloads-break");
+                }
+            }
+            (false, Claim::Equality) => {
+                if differs.is_none() {
+                    l.class("reported-unequal:but-same-acceptance(converse,allowed)");
+                    l.info(&format!("converse:equal-acceptance-but-rejected:{edit_class}"));
+                } else {
+                    l.class("reported-unequal:payloads-differ");
+                }
+            }
+        }
+    }
+}
+
+pub fn run(ctx: Ctx) -> ! {
+    if let Some(case) = ctx.read_replay_case() {
+        // replay: decode both schemas and re-run the comparison and the payload check
+        let b = SingleTypeSchema::<NoCustomSchema>::decode_from_bytes(&mc_core::unhex(case.get("base_schema_hex").and_then(|x| x.as_str()).unwrap_or("")));
+        let n = SingleTypeSchema::<NoCustomSchema>::decode_from_bytes(&mc_core::unhex(case.get("edited_schema_hex").and_then(|x| x.as_str()).unwrap_or("")));
+        let payload = mc_core::unhex(case.get("payload_hex").and_then(|x| x.as_str()).unwrap_or(""));
+        let pname = case.get("preset").and_then(|x| x.as_str()).unwrap_or("");
+        println!("base   = {:?}\nedited = {:?}", b, n);
+        for (name, settings, claim) in presets() {
+            if name == pname {
+                let r = compare_single_type_schemas::<NoCustomSchema>(&settings, &b, &n);
+                println!("preset {name} ({claim:?}): reported valid = {}", r.is_valid());
+                if let Some(m) = r.error_message("base", "edited") {
+                    println!("{m}");
+                }
+            }
+        }
+        println!("payload {} valid under base: {}  under edited: {}", mc_core::hex(&payload), valid(&b, &payload), valid(&n, &payload));
+        ctx.finish(Level::Exploration, "replay", 0, false, Map::new(), &[]);
+    }
+    let thorough = !ctx.quick();
+    let bases = base_types(thorough);
+    let pairs = std::sync::atomic::AtomicU64::new(0);
+    par_range(&ctx, bases.len() as u64, 1, |i, l| {
+        let base = &bases[i as usize];
+        let edits = edits_of(base);
+        pairs.fetch_add(edits.len() as u64, std::sync::atomic::Ordering::Relaxed);
+        for (name, base_spec, spec) in &edits {
+            check_pair(base_spec, name, spec, l);
+        }
+        if i % 97 == 5 {
+            l.sample(|| json!({"base": format!("{base:?}"), "edits": edits.len(), "first_edits": edits.iter().take(4).map(|e| e.0.clone()).collect::<Vec<_>>()}));
+        }
+    });
+    MIN.flush(&ctx);
+    let n_pairs = pairs.load(std::sync::atomic::Ordering::Relaxed);
+    let classes = ctx.classes();
+    let nontrivial: u64 = classes.iter().filter(|(k, _)| k.starts_with("reported-valid-extension") || k.starts_with("reported-equal")).map(|(_, v)| *v).sum();
+    let mut cov = Map::new();
+    cov.insert("base_types".into(), json!(bases.len()));
+    cov.insert("base_edit_pairs".into(), json!(n_pairs));
+    cov.insert("presets".into(), json!(presets().iter().map(|p| p.0).collect::<Vec<_>>()));
+    ctx.finish(
+        Level::Exploration,
+        "a case = (base schema, edited schema, settings preset); evaluations count comparisons; non-trivial = comparisons that reported valid (equal / valid extension), i.e. the ones the oracle constrains, each checked against every payload of schema_directed(base) ∪ schema_directed(edited)",
+        nontrivial,
+        true,
+        cov,
+        &["basic SBOR (no custom type kinds); payload validity decided by the real validate_payload_against_schema", "only schemas accepted by validate_schema are compared (the kernel documents that it assumes valid schemas)"],
+    )
 }
